@@ -30,6 +30,28 @@ type cenv struct {
 	brkOld *Term // for fresh(): allocation frontier at entry
 	depth  int
 	where  string
+	facts  *[]*Term
+}
+
+// ld loads a typed value from the current heap and records the Go type invariants of
+// what it read (well-formed slice headers, allocated pointers) as side facts.
+func (env *cenv) ld(a *Term, T types.Type) Val {
+	v := env.e.loadFrom(env.cur.h, a, T)
+	if env.facts != nil {
+		hb := false
+		for _, t := range v {
+			if t.hb {
+				hb = true
+			}
+		}
+		if !hb {
+			var st State
+			st.brk = env.cur.brk
+			st = env.e.assumeValid(st, T, v, false)
+			*env.facts = append(*env.facts, st.pcList()...)
+		}
+	}
+	return v
 }
 
 type cerr struct{ msg string }
@@ -166,7 +188,7 @@ func (env *cenv) objValue(o types.Object) cval {
 			if sp.Pkg == t.Pkg() {
 				if g, ok := sp.Members[t.Name()].(*ssa.Global); ok {
 					a := env.e.globalAddr(g)
-					return cval{v: env.e.loadFrom(env.cur.h, a, t.Type()), T: t.Type(), addr: a}
+					return cval{v: env.ld(a, t.Type()), T: t.Type(), addr: a}
 				}
 			}
 		}
@@ -196,7 +218,7 @@ func (env *cenv) eval(x Expr) cval {
 	case EIdent:
 		if v, ok := env.vars[t.Name]; ok {
 			if v.addr != nil && v.v == nil {
-				return cval{v: e.loadFrom(env.cur.h, v.addr, v.T), T: v.T, addr: v.addr}
+				return cval{v: env.ld(v.addr, v.T), T: v.T, addr: v.addr}
 			}
 			return v
 		}
@@ -248,7 +270,7 @@ func (env *cenv) eval(x Expr) cval {
 			if !ok {
 				env.errf("dereference of non-pointer")
 			}
-			return cval{v: e.loadFrom(env.cur.h, v.v[0], pt.Elem()), T: pt.Elem(), addr: v.v[0]}
+			return cval{v: env.ld(v.v[0], pt.Elem()), T: pt.Elem(), addr: v.v[0]}
 		case "&":
 			v := env.eval(t.X)
 			if v.addr == nil {
@@ -274,12 +296,12 @@ func (env *cenv) eval(x Expr) cval {
 		case *types.Slice:
 			es := e.elemSlots(ut.Elem())
 			a := c.Add(xv.v[0], c.Mul(idx, c.Const(64, es)))
-			return cval{v: e.loadFrom(env.cur.h, a, ut.Elem()), T: ut.Elem(), addr: a}
+			return cval{v: env.ld(a, ut.Elem()), T: ut.Elem(), addr: a}
 		case *types.Array:
 			es := int(e.elemSlots(ut.Elem()))
 			if xv.addr != nil {
 				a := c.Add(xv.addr, c.Mul(idx, c.Const(64, uint64(es))))
-				return cval{v: e.loadFrom(env.cur.h, a, ut.Elem()), T: ut.Elem(), addr: a}
+				return cval{v: env.ld(a, ut.Elem()), T: ut.Elem(), addr: a}
 			}
 			if idx.IsConst() {
 				o := int(idx.C) * es
@@ -301,7 +323,7 @@ func (env *cenv) eval(x Expr) cval {
 			if at, ok := ut.Elem().Underlying().(*types.Array); ok {
 				es := e.elemSlots(at.Elem())
 				a := c.Add(xv.v[0], c.Mul(idx, c.Const(64, es)))
-				return cval{v: e.loadFrom(env.cur.h, a, at.Elem()), T: at.Elem(), addr: a}
+				return cval{v: env.ld(a, at.Elem()), T: at.Elem(), addr: a}
 			}
 		}
 		env.errf("cannot index %v", xv.T)
@@ -336,7 +358,7 @@ func (env *cenv) eval(x Expr) cval {
 		if pointerShaped(T) {
 			return cval{v: Val{xv.v[1]}, T: T}
 		}
-		return cval{v: e.loadFrom(env.cur.h, xv.v[1], T), T: T, addr: xv.v[1]}
+		return cval{v: env.ld(xv.v[1], T), T: T, addr: xv.v[1]}
 	case EQuant:
 		n := env.child()
 		k := c.Bound(t.Var, BV(64))
@@ -417,7 +439,7 @@ func (env *cenv) selectField(xv cval, sel string) cval {
 			if cur.v != nil {
 				pv = cur.v[0]
 			} else {
-				pv = e.loadFrom(env.cur.h, cur.addr, curT)[0]
+				pv = env.ld(cur.addr, curT)[0]
 			}
 			cur = cval{addr: pv, T: pt.Elem()}
 			curT = pt.Elem()
@@ -434,7 +456,7 @@ func (env *cenv) selectField(xv cval, sel string) cval {
 		curT = FT
 	}
 	if cur.v == nil {
-		cur.v = e.loadFrom(env.cur.h, cur.addr, cur.T)
+		cur.v = env.ld(cur.addr, cur.T)
 	}
 	return cur
 }
@@ -838,7 +860,8 @@ func (env *cenv) sep(a, b cval) *Term {
 			if x.h != y.h {
 				continue
 			}
-			cs = append(cs, c.Or(c.Ule(c.Add(x.start, x.n), y.start), c.Ule(c.Add(y.start, y.n), x.start)))
+			z := c.Const(64, 0)
+			cs = append(cs, c.Or(c.Eq(x.n, z), c.Eq(y.n, z), c.Ule(c.Add(x.start, x.n), y.start), c.Ule(c.Add(y.start, y.n), x.start)))
 		}
 	}
 	return c.And(cs...)
